@@ -1,5 +1,6 @@
 """C29 — URI escaping / HTML escaping: table parts decided completely (K6), loop guards (K4); round trips declined."""
 from ..core import Rule
+from ..interp import normx
 from ..prog import *
 from ..facts import AnalysisBroken
 
@@ -20,6 +21,146 @@ CONFIGS = ["build", "assert"]
 UNRESERVED = set(range(48, 58)) | set(range(65, 91)) | set(range(97, 123)) | set(map(ord, "-._~"))
 ENT = {ord("<"): "&lt;", ord(">"): "&gt;", ord('"'): "&quot;", ord("'"): "&#039;", ord("&"): "&amp;"}
 U8 = ("unsigned char", "ev_uint8_t", "uint8_t")
+
+
+def ref_query(q, flags):
+    """the documented splitter: pairs separated by '&', key and value by the first '='; value form-decoded ('+' is a space, %XX a byte).  Conformant mode refuses a pair without '=' or
+    with an empty key; NONCONFORMANT (0x01) reads a bare key as key with an empty value and skips pairs with an empty key; LAST_VAL (0x02) keeps only the last value of a key (keys compare
+    without case).  -> list of (key, value) or None (refused)"""
+    def dec(v):
+        out = bytearray()
+        i = 0
+        while i < len(v):
+            c = v[i:i + 1]
+            if c == b"+":
+                out.append(32)
+            elif c == b"%" and i + 2 < len(v) + 0 and all(x in b"0123456789abcdefABCDEF" for x in v[i + 1:i + 3]) and len(v[i + 1:i + 3]) == 2:
+                out.append(int(v[i + 1:i + 3], 16))
+                i += 2
+            else:
+                out += c
+            i += 1
+        return bytes(out)
+    out = []
+    if not q:
+        return out
+    pieces = q.split(b"&")
+    if pieces and pieces[-1] == b"":
+        pieces = pieces[:-1]          # a trailing '&' ends the list
+    for pc in pieces:
+        if b"=" in pc:
+            k, v = pc.split(b"=", 1)
+        else:
+            k, v = pc, None
+        if flags & 1:
+            if v is None:
+                v = b""
+            if k == b"":
+                continue
+        else:
+            if v is None or k == b"":
+                return None
+        if flags & 2:
+            out = [(a, b) for a, b in out if a.lower() != k.lower()]
+        out.append((k, dec(v)))
+    return out
+
+
+def rule_query(P):
+    from ..cmem import MEM0, mem_put, mem_str, mem_hook
+    from ..interp import run_all
+    from ..prog import PPtr, PStr
+    r = Rule("C29-query", "K6", "evhttp_parse_query_str_flags yields exactly the pairs of the documented splitter, for every flag combination", floor=60)
+    f = P.fn("evhttp_parse_query_impl")
+    queries = [b"a=1", b"a=1&b=2", b"a=1&a=2", b"a=1&a=", b"a=&a=1", b"a", b"a&b=1", b"=1", b"a=1&&b=2", b"a=b=c", b"a=%41+b", b"A=1&a=2", b"", b"a=1&", b"&a=1", b"a=1&b", b"q=old&r=2&Q=", b"a=1&a",
+               b"a=%4", b"a=%zz&b=+", b"k=v&K=w&k=x"]
+    nb = 0
+    for q in queries:
+        for flags in (0, 1, 2, 3):
+            env = {"#typed": 1, "#bytemem": 1, "event_debug_logging_mask_": 0, f.params[0][0]: MEM0, f.params[1][0]: PPtr("hdrs"), ("@", "hdrs", "#zero"): 1, f.params[2][0]: 0, f.params[3][0]: flags, "#list": (), "#cleared": 0}
+            mem_put(env, MEM0, q)
+
+            def extra(el, e_):
+                n = callee_name(el.e)
+                a = el.e[2]
+                if n == "strsep":
+                    sp = strip(a[0])
+                    if not (is_e(sp, "addr") and is_e(strip(sp[1]), "var")):
+                        return "impure"
+                    v = strip(sp[1])[1]
+                    cur = e_.get(v)
+                    if not cur:
+                        return 0
+                    dl = evalx(normx(a[1]), e_, P).text()
+                    t = mem_str(e_, cur)
+                    if t is None:
+                        return "impure"
+                    for i, ch in enumerate(t):
+                        if ch in dl:
+                            e_[("m", cur + i)] = 0
+                            e_[v] = cur + i + 1
+                            return cur
+                    e_[v] = 0
+                    return cur
+                if n == "evhttp_decode_uri_internal":
+                    src, ln, dst, plus = [evalx(normx(x), e_, P) for x in a[:4]]
+                    raw = bytes(e_.get(("m", src + k), 0x3f) for k in range(ln))
+                    dec = ref_query(b"k=" + raw, 0)
+                    val = dec[0][1] if dec else raw
+                    if not plus:
+                        return "impure"
+                    mem_put(e_, dst, val)
+                    return len(val)
+                if n == "evhttp_remove_header":
+                    k = mem_str(e_, evalx(normx(a[1]), e_, P))
+                    e_["#list"] = tuple((x, y) for x, y in e_["#list"] if x.lower() != k.lower())
+                    return 0
+                if n == "evhttp_add_header_internal":
+                    k = mem_str(e_, evalx(normx(a[1]), e_, P))
+                    v = evalx(normx(a[2]), e_, P)
+                    v = v.text() if isinstance(v, PStr) else mem_str(e_, v)
+                    if k is None or v is None:
+                        e_["#oob"] = "a key or value handed to the header list is not a terminated string inside its buffer"
+                        return 0
+                    e_["#list"] = e_["#list"] + ((k, v),)
+                    return 0
+                if n == "evhttp_clear_headers":
+                    e_["#list"] = ()
+                    e_["#cleared"] = 1
+                    return 0
+                return None
+            outs = [o for o in run_all(f, (f.entry, 0), env, lambda el: False, P, mem_hook(P, extra), max_steps=8000) if not (o.kind == "exit" and o.why == "noreturn")]
+            want = ref_query(q, flags)
+            for o in outs:
+                if o.kind != "ret":
+                    r.brk("evhttp_parse_query_impl(%r, %d): %s %s %s" % (q, flags, o.kind, o.why, o.env.get("#err", "")))
+                    return r
+                try:
+                    rv = evalx(normx(o.at.e[1]), o.env, P)
+                except EvalError as ex:
+                    r.brk("evhttp_parse_query_impl(%r): return value: %s" % (q, ex))
+                    return r
+                got = list(o.env["#list"])
+                r.inst((q, flags), {"query": q.decode(), "flags": flags, "returns": rv, "pairs": [[k.decode("latin-1"), v.decode("latin-1")] for k, v in got]})
+                bad = None
+                if o.env.get("#oob"):
+                    bad = o.env["#oob"]
+                elif (rv == 0) != (want is not None):
+                    bad = "returns %d; the documented splitter %s" % (rv, "accepts it" if want is not None else "refuses it")
+                elif rv == 0 and got != want:
+                    bad = "yields %s; the documented splitter yields %s" % (got, want)
+                elif rv != 0 and got:
+                    bad = "refuses the query but leaves %s in the list" % got
+                if bad and nb < 8:
+                    nb += 1
+                    r.bad("K6:evhttp_parse_query_impl:%s" % ("last-val" if flags & 2 and rv == 0 else "pairs"), "%s:%d" % (f.file, f.line), f.name, "query %r, flags %#x: %s" % (q, flags, bad))
+    seen, uniq = set(), []
+    for f_ in r.findings:
+        if f_.key not in seen:
+            seen.add(f_.key)
+            uniq.append(f_)
+    r.findings = uniq
+    return r
 
 
 def run(ctx, config):
@@ -273,4 +414,10 @@ def run(ctx, config):
                 r5.brk("escape value expression cannot be evaluated: %s" % ex)
     rules.append(r5)
     rules.append(r4)
+    try:
+        rules.append(rule_query(P))
+    except AnalysisBroken as ex:
+        rq = Rule("C29-query", "K6", "query splitter", floor=1)
+        rq.brk(str(ex))
+        rules.append(rq)
     return rules
